@@ -547,7 +547,7 @@ func checkFaulted(res *OpResult, R []byte) *Violation {
 		if !bytes.HasPrefix(R, all) {
 			return &Violation{Class: "write-after-failure", Want: R, Got: all, Detail: "bytes accepted after the first failure leave a hole: all accepted bytes are not a prefix of the fault-free output"}
 		}
-		if s.plan.Kind != "transient" && len(all) != s.preLen {
+		if s.plan.Kind != "transient" && s.plan.Kind != "flaky" && len(all) != s.preLen {
 			// a fail-stop sink accepts nothing after failing, by construction
 			panic("harness: fail-stop sink accepted bytes after failing")
 		}
